@@ -480,6 +480,7 @@ type c31Case struct {
 	fcWindow     map[int]bool         // fc thread id -> an Add for its digest was inserted inside [Find, Delete)
 	nAck, nDel, nUpl, nRestart, nFault int
 	sample  []string
+	halt    bool
 }
 
 func (c *c31Case) emit(op, res, h string) {
@@ -709,7 +710,7 @@ func (c *c31Case) noteDeleted(d int, byFc *c31Thr) {
 
 // advance thread th by one gate-to-gate segment; emits the model steps that segment consists of
 func (c *c31Case) advance(th *c31Thr, up bool) {
-	if th.done || th.dead || c.w.incon != "" {
+	if th.done || th.dead || c.w.incon != "" || c.halt {
 		return
 	}
 	w := c.w
@@ -724,7 +725,12 @@ func (c *c31Case) advance(th *c31Thr, up bool) {
 	if th.done {
 		to = "done"
 	}
-	bad := func() { w.incon = fmt.Sprintf("thread %d %s: unexpected gate %q after %q", th.id, th.kind, to, from) }
+	// a gate sequence the model has no step for is a deviation of the code, not an inconclusive run:
+	// report it as a result the model never gives for an enabled step and stop the case
+	bad := func() {
+		c.stepOp(th, up, "RIllegal", fmt.Sprintf("unexpected-gate-%s-after-%s", to, from))
+		c.halt = true
+	}
 	// executor segments, shared by worker threads and SyncExec inside forced cleanup
 	execSeg := func() bool {
 		switch from {
@@ -788,6 +794,11 @@ func (c *c31Case) advance(th *c31Thr, up bool) {
 			c.stepOp(th, up, r, "up-move")
 			if to == "add" {
 				c.stepOp(th, up, "RNext", "up-setpersist")
+			} else if to == "done" && (th.status == 200 || th.status == 409) {
+				// the request was acknowledged without ever reaching writeBack's Add
+				c.stepOp(th, up, "RAck", "up-ack-without-writeback")
+				c.acks = append(c.acks, [2]int{th.ns, th.d})
+				c.nAck++
 			} else if to == "done" {
 				c.stepOp(th, up, "RErr", "up-setpersist-err")
 			} else {
@@ -846,7 +857,7 @@ func (c *c31Case) advance(th *c31Thr, up bool) {
 			return
 		}
 		ok := execSeg()
-		if w.incon != "" {
+		if w.incon != "" || c.halt {
 			return
 		}
 		if (ok && from == "clr" && to != "fin") || (!ok && to != "fin") {
@@ -918,7 +929,7 @@ func (c *c31Case) advance(th *c31Thr, up bool) {
 			}
 		default:
 			ok := execSeg()
-			if w.incon != "" {
+			if w.incon != "" || c.halt {
 				return
 			}
 			if ok {
@@ -1154,7 +1165,7 @@ type c31Act struct {
 func c31Up(a c31Act) bool { return a.Up == nil || *a.Up }
 
 func (c *c31Case) perform(a c31Act) {
-	if c.w.incon != "" {
+	if c.w.incon != "" || c.halt {
 		return
 	}
 	switch a.A {
@@ -1232,7 +1243,7 @@ func c31RunCaseTo(cc *c31Collector, tmp string, idx int, kind string, lru bool, 
 		if gen != nil {
 			gen(c)
 		}
-		if w.incon == "" {
+		if w.incon == "" && !c.halt {
 			c.drain()
 		}
 	}
